@@ -90,7 +90,7 @@ pub fn p32_near_thresholds(tn: u32, tes: u32) -> BoxedStrategy<u64> {
 
 pub fn run(rep: &mut Report) {
     let tier = rep.cfg.tier;
-    rep.rule = "source pattern a converted along the six directed pairs among P8E0/P16E1/P32E2 through the From impl, from_* and to_* spellings; expected = posit rounding of the decoded source value in the target format (widening must be exact and widening-then-narrowing the identity). P8 and P16 sources: all patterns. P32 sources: every 9-bit and 17-bit target threshold mapped into P32 with its +-2 neighbours (complete lattice), proptest structured bits, strided scan; thorough: all 2^32 patterns to both targets. Non-trivial = source value not representable in the target (narrowing that rounds or saturates); distinct (direction, a)."
+    rep.rule = "source pattern a converted along the six directed pairs among P8E0/P16E1/P32E2 through the From impl, from_* and to_* spellings; expected = posit rounding of the decoded source value in the target format (widening must be exact and widening-then-narrowing the identity). P8 and P16 sources: all patterns. P32 sources: every 9-bit and 17-bit target threshold mapped into P32 with its +-2 neighbours (complete lattice), proptest structured bits, and all 2^32 patterns to both targets in both tiers. Non-trivial = source value not representable in the target (narrowing that rounds or saturates); distinct (direction, a)."
         .into();
     rep.assumptions = std_assumptions();
     super::run_corpus(rep, replay);
@@ -117,9 +117,8 @@ pub fn run(rep: &mut Report) {
     rep.generated("P32E2 -> P16E1 near 17-bit thresholds (generated)", g / 2, || p32_near_thresholds(16, 1), |&a, l| conv(2, 1, a, false, l));
     match tier {
         Tier::Quick => {
-            let off = rep.cfg.seed % 2;
-            rep.lattice("P32E2 -> P8E0 every 2nd pattern (fast oracle)", 1 << 31, move |i, l| conv(2, 0, i * 2 + off, true, l));
-            rep.lattice("P32E2 -> P16E1 every 2nd pattern (fast oracle)", 1 << 31, move |i, l| conv(2, 1, i * 2 + off, true, l));
+            rep.exhaustive("P32E2 -> P8E0 all 2^32 sources (fast oracle)", 1 << 32, |i, l| conv(2, 0, i, true, l));
+            rep.exhaustive("P32E2 -> P16E1 all 2^32 sources (fast oracle)", 1 << 32, |i, l| conv(2, 1, i, true, l));
         }
         Tier::Thorough => {
             rep.exhaustive("P32E2 -> P8E0 all 2^32 sources (fast oracle)", 1 << 32, |i, l| conv(2, 0, i, true, l));
